@@ -260,10 +260,11 @@ def kani_playback(h, features, tag):
                            timeout=h.timeout + 300)
     except subprocess.TimeoutExpired:
         return None
-    m = re.search(r"```\s*\n(.*?)```", p.stdout, flags=re.S)
-    if not m:
+    blocks = re.findall(r"```\s*\n(.*?)```", p.stdout, flags=re.S)
+    keep = [b for b in blocks if "Check for `cover`" not in b]
+    if not keep:
         return None
-    return m.group(1)
+    return "\n".join(keep)
 
 
 def native_replay_kani(h, test_src, features):
@@ -276,8 +277,7 @@ def native_replay_kani(h, test_src, features):
     modfile = os.path.join(scratch, "src", h.module + ".rs")
     with open(modfile, "a") as f:
         f.write("\n" + test_src + "\n")
-    m = re.search(r"fn (kani_concrete_playback_\w+)", test_src)
-    tname = m.group(1) if m else "kani_concrete_playback"
+    tname = "kani_concrete_playback_"
     cmd = ["cargo", "kani", "playback", "-Z", "concrete-playback", "--manifest-path",
            os.path.join(scratch, "Cargo.toml"), "--no-default-features"]
     if features:
